@@ -164,12 +164,12 @@ def check_instance(payload, K, st: Stats):
                 s.check()
         else:
             s.add(neg)
-            r = z3_check(s, st, 120000)
+            r = z3_check(s, st, 30000)
+            m_split = None
             if r == "unknown":
-                r, fix = split_check(s, list(nvar.values()), lo or 1, K, st)
+                r, fix, m_split = split_check(s, list(nvar.values()), lo or 1, K, st)
                 if r == "sat":
                     s.add(fix)
-                    s.check()
         count_obligation(st, r, label + " " + d)
         if r == "sat":
             # prefer a witness with small integer bits-per-value (reported and peak bits are then
@@ -184,9 +184,13 @@ def check_instance(payload, K, st: Stats):
             if z3_check(s, st, 120000) == "sat":
                 m = s.model()
                 s.pop()
+            elif m_split is not None:
+                s.pop()
+                m = m_split
             else:
                 s.pop()
-                s.check()
+                if z3_check(s, st, 120000) != "sat":
+                    raise HarnessError(f"{label}: no model for a sat obligation")
                 m = s.model()
             trips = {i: int(model_value(m, v)) for i, v in nvar.items()}
             vals = {n: model_value(m, v) for n, v in tr.env.items() if not n.startswith("n")}
